@@ -145,21 +145,25 @@ def _solve_one(idx) -> Dict[str, Any]:
             out.update(verdict="unsat", solver=r[1], time=time.time() - t0)
             return out
     try:
-        s = _build_solver(ob, Z3_TIMEOUT_MS)
-        r = s.check()
-        if r == z3.unknown and time.time() - t0 < 0.5 * Z3_TIMEOUT_MS / 1000.0:
-            # gave up early ("incomplete (theory array)", "incomplete quantifiers"): the answer of the default configuration
-            # depends on term order; ask again without model-based instantiation and with other seeds before going on
-            for cfg in ({"smt.mbqi": False}, {"smt.random_seed": 7}, {"smt.random_seed": 23, "smt.mbqi": False}):
-                s2 = _build_solver(ob, Z3_TIMEOUT_MS // 2)
-                for k_, v_ in cfg.items():
-                    s2.set(k_, v_)
-                r2 = s2.check()
-                if r2 != z3.unknown:
-                    s, r = s2, r2
-                    break
+        # A proof that exists is usually found in well under a second; when z3 diverges instead, the divergence depends on
+        # the seed and on term order (the same query was seen to go 0.3 s / unknown / 15 s timeout across seeds).  So: a
+        # few short attempts under different configurations first, then one long attempt.  Classes that needed the long
+        # attempt when the ledger was recorded (hint "z3-long") start with it.
+        short = [(3000, {}), (3000, {"smt.mbqi": False}), (3000, {"smt.random_seed": 7}),
+                 (3000, {"smt.random_seed": 23, "smt.mbqi": False}), (3000, {"smt.random_seed": 101})]
+        long_ = [(Z3_TIMEOUT_MS, {"smt.random_seed": 3})]
+        plan = long_ + short if getattr(ob, "hint", None) == "z3-long" else short + long_
+        r, label = z3.unknown, ""
+        for tmo, cfg in plan:
+            s = _build_solver(ob, tmo)
+            for k_, v_ in cfg.items():
+                s.set(k_, v_)
+            r = s.check()
+            if r != z3.unknown:
+                label = " (long attempt)" if tmo == Z3_TIMEOUT_MS else ""
+                break
         if r == z3.unsat:
-            out.update(verdict="unsat", solver=f"z3 {z3.get_version_string()}")
+            out.update(verdict="unsat", solver=f"z3 {z3.get_version_string()}" + label)
         elif r == z3.sat:
             out.update(verdict="sat", solver=f"z3 {z3.get_version_string()}")
             try:
